@@ -12,7 +12,7 @@ from copy import copy
 from typing import List
 
 from vfw import hs
-from vfw.refsem.gdsl import Grammar, Rule, Alt, T, N, Opt, Star, Plus, Term, L as Lit
+from vfw.refsem.gdsl import Grammar, Rule, Alt, T, N, Opt, Star, Plus, Term, Maybe, L as Lit
 
 PROPERTY = 'C13'
 P = hs.params()
@@ -27,6 +27,8 @@ GRAMMARS = {
     # the same with an explicit empty alternative: an empty Tree('_items', []) sits on the value stack and is extended in place
     'inl_lrec_empty2': (Grammar([Rule('start', [[N('_items')]]), Rule('_items', [[], [N('_items'), N('item')]]),
                                  Rule('item', [[A], [B, B]])], declare=['A', 'B']), ['A', 'B']),
+    # the same with [..] placeholders (the placeholder-aware child filter has its own in-place list reuse)
+    'inl_lrec_maybe2': (Grammar([Rule('start', [[N('_items')]]), Rule('_items', [[N('_items'), A, Maybe(B)], [A, Maybe(B)]])], declare=['A', 'B']), ['A', 'B']),
     # left recursion through an inlined rule: ChildFilterLALR reuses the child's list in place
     'inl_lrec': (Grammar([Rule('start', [[N('_list')]]), Rule('_list', [[N('_list'), N('item')], [N('item')]]),
                           Rule('item', [[A], [B, C]])], declare=['A', 'B', 'C']), ['A', 'B', 'C']),
@@ -396,7 +398,7 @@ def plan(tier, seed):
                 slices.append({'id': 'forks:%s:kind%d:order%d:p%d:c%d' % (g, fk, od, LP, LC), 'func': 'forks',
                                'params': {'kind': 'forks', 'g': g, 'LP': LP, 'LC': LC, 'fork_kind': fk, 'order': od}, 'timeout': 300 if quick else 3000,
                                'twin': fk == 0 and od == 2, 'bound': {'prefix': LP, 'continuations': LC}})
-    for g, mut in (('inl_lrec_empty2', False), ('inl_lrec2', True), ('inl_lrec_empty2', True)):
+    for g, mut in (('inl_lrec_empty2', False), ('inl_lrec2', True), ('inl_lrec_empty2', True), ('inl_lrec_maybe2', False)):
         for fk in range(4):
             for od in range(3):
                 if quick and not (fk in (0, 2) and od == 2):
